@@ -269,6 +269,11 @@ func (b *binder) singleFn(ft reflect.Type, tm *typeModel, ki int) func([]reflect
 		id := identityOf(tm.Name, k.Resolver, vals)
 		r.delay(id)
 		r.complete(doneEv{Type: tm.Name, Identity: id})
+		// a well-behaved resolver gives up when its context is cancelled; nothing in an _entities
+		// request may cancel the context of one representation because another one failed
+		if err := ctx.Err(); err != nil && r.plan.FaultID != id {
+			return []reflect.Value{reflect.Zero(ft.Out(0)), reflect.ValueOf(fmt.Errorf("CTX!%s: %w", id, err)).Convert(errType)}
+		}
 		if r.plan.FaultID == id {
 			r.fault(id)
 			if r.plan.FaultKind == "panic" {
